@@ -240,7 +240,9 @@ func classifyErr(err error, u string, st *implStep) {
 	case strings.HasPrefix(msg, "limit store for upstream "+u+" ") && strings.HasSuffix(msg, " not found"):
 		f := strings.Fields(msg)
 		st.reply = "noStore:" + f[len(f)-3]
-	case apierrors.IsNotFound(err):
+	case apierrors.IsNotFound(err), msg == "interval error: upstreamLock not exist":
+		// the upstream is not (or no longer) registered with this store: no state condition, or not even a lock.
+		// Which of the two tests comes first is not this property's business: one class.
 		st.reply = "served:updNotFound"
 	default:
 		st.reply = "error:" + msg
@@ -422,26 +424,23 @@ func entryOp(o Op) bool {
 func runHistory(c *rig.Ctx, cs Case, m mode) int {
 	var v verdict
 	fail := func(kind, class, what string, at int, impl, model interface{}) {
-		if v.sev == pass && m.record {
-			cut := cs
-			if at >= 0 && at+1 < len(cs.Ops) {
-				cut.Ops = cs.Ops[:at+1]
-			}
-			c.Fail(rig.Failure{Kind: kind, Class: class, What: what, Case: cut, Impl: impl, Model: model})
+		cut := cs
+		if at >= 0 && at+1 < len(cs.Ops) {
+			cut.Ops = cs.Ops[:at+1]
 		}
-		v.note(kind)
+		v.note(rig.Failure{Kind: kind, Class: class, What: what, Case: cut, Impl: impl, Model: model})
 	}
 	if uint32(cs.N) == 0 {
 		// every entry point panics at its first statement: covered by the shard stream
 		fail("diff", "c13.bad-case", "history with a shard count whose uint32 is 0", -1, nil, nil)
-		return v.sev
+		return v.flush(c, m)
 	}
 	me := rig.UnHex(cs.Me)
 	pool := histPool(cs)
 	e, err := newEnv(me, int(cs.N), cs.StoreType, unhexAll(cs.Lister))
 	if err != nil {
 		fail("diff", "c13.harness", "cannot build a rate limiter: "+err.Error(), -1, nil, nil)
-		return v.sev
+		return v.flush(c, m)
 	}
 	steps := make([]implStep, len(cs.Ops))
 	snaps := make([]snapshot, len(cs.Ops))
@@ -455,7 +454,7 @@ func runHistory(c *rig.Ctx, cs Case, m mode) int {
 		before = after
 		if steps[i].panicMsg != "" {
 			fail("judge", "c13.panic", fmt.Sprintf("op %d %s panicked: %s", i, rig.Canon(o), steps[i].panicMsg), i, steps[i].panicMsg, nil)
-			return v.sev
+			return v.flush(c, m)
 		}
 	}
 	var mod struct {
@@ -473,14 +472,19 @@ func runHistory(c *rig.Ctx, cs Case, m mode) int {
 			JudgeImpl  *bool
 		}
 	}
-	req := map[string]interface{}{"me": cs.Me, "n": cs.N, "storeType": cs.StoreType, "lister": emptyIfNil(cs.Lister), "ops": cs.Ops, "impl": steps}
+	// "the upstream's shard" in the judge is the shard the implementation itself assigns (util.GetShardID)
+	implShards := [][]interface{}{}
+	for _, u := range pool {
+		implShards = append(implShards, []interface{}{rig.Hex(u), implShardInt(u, int(cs.N))})
+	}
+	req := map[string]interface{}{"me": cs.Me, "n": cs.N, "storeType": cs.StoreType, "lister": emptyIfNil(cs.Lister), "ops": cs.Ops, "impl": steps, "implShards": implShards}
 	if err := c.Model("C13.history", req, &mod); err != nil {
 		fail("diff", "c13.model-error", "model error "+err.Error(), -1, nil, nil)
-		return v.sev
+		return v.flush(c, m)
 	}
 	if len(mod.Steps) != len(cs.Ops) {
 		fail("diff", "c13.model-error", "model answered another number of steps", -1, nil, nil)
-		return v.sev
+		return v.flush(c, m)
 	}
 	served, refused := 0, 0
 	// first pass: the property itself (spec + the implementation's own behaviour; independent of the model's state)
@@ -570,7 +574,7 @@ func runHistory(c *rig.Ctx, cs Case, m mode) int {
 			return map[string]interface{}{"me": cs.Me, "n": cs.N, "ops": len(cs.Ops), "served": served, "refused": refused, "first_ops": cs.Ops[:min(4, len(cs.Ops))]}
 		})
 	}
-	return v.sev
+	return v.flush(c, m)
 }
 
 func emptyEPs(l []EP) []EP {
